@@ -33,6 +33,11 @@ var profiles = map[string]Profile{
 	"C04": {Name: "C04", MinOps: 15, MaxOps: 60, Keys: 6, EmptyVals: true, ObsEvery: 4,
 		Initials: []int64{-1, -1, 1, 7},
 		W:        map[string]int{"set": 25, "rm": 14, "save": 25, "rollback": 3, "reopen": 6, "prune": 14, "lvfo": 3}},
+	// C04w: the same with recorded deletions (physical writes and flush positions against
+	// PruneAlgo.prune_forest) under small flush thresholds
+	"C04w": {Name: "C04w", MinOps: 15, MaxOps: 60, Keys: 6, EmptyVals: true, ObsEvery: 4, WPrune: true,
+		Initials: []int64{-1, -1, 1, 7},
+		W:        map[string]int{"set": 25, "rm": 14, "save": 25, "rollback": 3, "reopen": 6, "prune": 14, "lvfo": 3, "rekeychain": 5}},
 	// C07: the fast index against the tree walk, each reopen chooses index on/off
 	"C07": {Name: "C07", MinOps: 15, MaxOps: 60, Keys: 8, EmptyVals: true, ObsEvery: 3, ToggleFast: true,
 		Initials: []int64{-1, -1, 1, 7},
@@ -283,6 +288,9 @@ func m1gen(name string) func(r *rand.Rand, tier, id string) Case {
 			cf := configsFor(r, tier, 2)
 			cf[0] = strings.Replace(cf[0], cf[0][:strings.Index(cf[0], ",")], "cache=0", 1)
 			c.Cfgs = cf
+		}
+		if name == "C04w" {
+			c.Cfgs = wrapConfigs(r, 2, []int{64, 100, 128, 160, 200, 300, 400, 1000, 100000})
 		}
 		if name == "C17" {
 			c.Cfgs = wrapConfigs(r, 1, []int{400, 100000})
